@@ -32,7 +32,21 @@ JudgeStep(in, q, g) ==
             \cup (IF \E j \in DOMAIN g.series : \E i \in DOMAIN g.series[j].ts :
                         g.series[j].vs[i] # Val(g.series[j].k, g.series[j].ts[i], in.vunit)
                   THEN {"same-values"} ELSE {})
-Judge(e) == UNION { JudgeStep(e.in, e.in.hist[i], e.steps[i].got) : i \in DOMAIN e.in.hist }
+JudgeRange(e) == UNION { JudgeStep(e.in, e.in.hist[i], e.steps[i].got) : i \in DOMAIN e.in.hist }
+
+(* ---- phase 2: metadata histories (in.meta = TRUE): hist[i] = [kind, s, e], kind 0 instant query,     *)
+(* 1 label names, 2 label values, 3 series; steps[i].got = [err, ids] the series ids the answer names;  *)
+(* steps[i].passed: an instant query reached the querier exactly once with its own time.               *)
+(* The cache serves these requests too; label APIs may answer supersets, so: nothing the direct        *)
+(* answer has may be lost, nothing may be invented, instant queries are answered exactly.              *)
+JudgeMetaStep(in, q, st) ==
+    IF st.got.err # "" THEN {"meta-answered"}
+    ELSE LET ids == { st.got.ids[j] : j \in DOMAIN st.got.ids } IN
+         (IF ~MetaNothingLost(ids, in.world, q.s, q.e) THEN {"meta-nothing-lost"} ELSE {})
+         \cup (IF ~MetaNothingInvented(ids, in.world) THEN {"meta-nothing-invented"} ELSE {})
+         \cup (IF q.kind = 0 /\ (ids # MetaDirect(in.world, q.s, q.s) \/ ~st.passed) THEN {"instant-passes-through"} ELSE {})
+JudgeMeta(e) == UNION { JudgeMetaStep(e.in, e.in.hist[i], e.steps[i]) : i \in DOMAIN e.in.hist }
+Judge(e) == IF e.in.meta THEN JudgeMeta(e) ELSE JudgeRange(e)
 
 (* ---- model conformance (never a verdict): run the algorithm-level cache model along the history ---- *)
 CommonSteps == {43200000, 21600000, 10800000, 7200000, 3600000, 1800000, 900000, 600000, 300000,
@@ -50,7 +64,16 @@ DriftFrom(e, i, cache) ==
             \/ GotResp(g) # d.resp
             \/ { e.steps[i].ext[j] : j \in DOMAIN e.steps[i].ext } # CacheRanges(d.cache)
             \/ DriftFrom(e, i + 1, d.cache)
-Drift(e) == DriftFrom(e, 1, << >>)
+RECURSIVE MetaDriftFrom(_, _, _)
+MetaDriftFrom(e, i, cache) ==
+    IF i > Len(e.in.hist) THEN FALSE
+    ELSE LET d == MetaFrontendDo([iv |-> e.in.iv, minext |-> 300000], e.in.world, Without(cache, e.steps[i].lost), e.in.hist[i])
+             g == e.steps[i].got
+         IN \/ g.err # ""
+            \/ { g.ids[j] : j \in DOMAIN g.ids } # d.resp
+            \/ { e.steps[i].ext[j] : j \in DOMAIN e.steps[i].ext } # CacheRanges(d.cache)
+            \/ MetaDriftFrom(e, i + 1, d.cache)
+Drift(e) == IF e.in.meta THEN MetaDriftFrom(e, 1, << >>) ELSE DriftFrom(e, 1, << >>)
 
 VARIABLE l
 TraceInit == l = 1
